@@ -24,12 +24,10 @@ Notation call := (call exc should_retry cfail).
 Notation call_stream := (call_stream exc should_retry cfail).
 Notation stream_body := (stream_body exc).
 Notation leaf := (leaf exc).
-Notation run := (run exc should_retry cfail).
 Notation run_with := (run_with exc cfail).
 Notation exit_ := (exit_ exc cfail).
 Notation do_commit := (do_commit exc cfail).
 Notation can_commit := (can_commit exc).
-Notation writes := (writes exc).
 
 Definition dflt : bool * outcome := (false, Ok).
 
@@ -265,6 +263,10 @@ Proof.
 Qed.
 
 (* ------------------------------------------------------------------ nesting: arbitrary programs inside a live session *)
+Section Nesting.
+Variable is_exception : exc -> bool.
+Notation run := (run exc should_retry cfail is_exception).
+Notation writes := (writes exc is_exception).
 
 Theorem run_inside : forall p x,
   depth x <> 0 ->
@@ -324,6 +326,8 @@ Proof.
     unf; rewrite ?Hal, ?Hbad; unf; rewrite ?Hal, ?Hbad; rewrite <- ?app_assoc, ?app_nil_r; cbn [app];
     (eexists; split; [reflexivity|split; [exact F1|reflexivity]]).
 Qed.
+
+End Nesting.
 
 (* ------------------------------------------------------------------ tie to the source skeleton of _commit_or_rollback (Gen/C18Web.v) *)
 
